@@ -412,7 +412,7 @@ func genHistory(r *rand.Rand, p Profile) *History {
 			}
 			f.Results = []Res{{K: gk, Whole: true, N: g.r.Intn(4)}}
 			if g.coin(0.75) {
-				f.Params = append(f.Params, Param{K: gk, Soft: g.coin(0.2)})
+				f.Params = append(f.Params, Param{K: gk, Soft: g.coin(g.p.PSoft * 0.7)})
 			}
 		} else {
 			nk := 1
